@@ -35,6 +35,9 @@ def tsan_env(w):
     return e
 
 
+UNREPRODUCIBLE_HANGS = []      # (prefix, first verdict) of runs that hung or timed out once and completed when replayed
+
+
 class Execution:
     __slots__ = ('prefix', 'points', 'rc', 'result', 'log', 'san', 'trace_tail', 'child_traces', 'timed_out', 'stdout', 'hang')
 
@@ -63,6 +66,19 @@ def run_one(h_thr, w, cfgtext, n, k, mode, prefix, san='asan', fn=False, extra_a
     # (engine.common.sh_watch): a process tree in which nothing is runnable and nothing consumes CPU is hung (e.g. a forked child
     # blocked in the kernel on something it inherited) and reported at once; a tree that is merely slow gets 5x the limit.
     r, verdict = sh_watch([h_thr, ini, res, str(n), str(k), mode] + list(extra_args), timeout, env=env, cwd=w)
+    if verdict != 'done':
+        # replay before report: the schedule is deterministic, so a genuine hang hangs again; one that does not is an artefact of the
+        # run (it is counted by the caller through x.unreproducible_hang and never becomes a verdict)
+        for f in os.listdir(w):
+            if f != 'snoopy.ini':
+                try:
+                    os.unlink(os.path.join(w, f))
+                except OSError:
+                    pass
+        r2, verdict2 = sh_watch([h_thr, ini, res, str(n), str(k), mode] + list(extra_args), timeout, env=env, cwd=w)
+        if verdict2 == 'done':
+            UNREPRODUCIBLE_HANGS.append((list(prefix), verdict))
+            r, verdict = r2, verdict2
     x.rc = r.returncode if verdict == 'done' else -999
     x.stdout = r.stdout or b''
     x.timed_out = verdict != 'done'
